@@ -279,10 +279,13 @@ where
     let cap_height = fri_params.config.cap_height;
 
     ensure!(trace_cap.len() == 1 << cap_height);
-    ensure!(
-        quotient_polys_cap.is_none()
-            || quotient_polys_cap.as_ref().map(|q| q.len()) == Some(1 << cap_height)
-    );
+    // A STARK with quotient polynomials must come with their commitment: without the cap, the
+    // quotient openings are bound neither to the transcript nor to a Merkle root.
+    ensure!(if let Some(quotient_polys_cap) = quotient_polys_cap {
+        stark.num_quotient_polys(config) != 0 && quotient_polys_cap.len() == 1 << cap_height
+    } else {
+        stark.num_quotient_polys(config) == 0
+    });
 
     ensure!(local_values.len() == S::COLUMNS);
     ensure!(next_values.len() == S::COLUMNS);
